@@ -93,6 +93,51 @@ func Generate(profile string, seed uint64, tier string) (*Scenario, error) {
 	case "C12c":
 		sc.Property = "C12"
 		genC12c(g, sc, tier)
+	case "C19c":
+		sc.Property = "C19"
+		genC05(g, sc, tier)
+		// more dataset management racing the writers
+		names := []string{"mgrX", "mgrY"}
+		for k := g.Range(1, 2); k > 0; k-- {
+			var ops []Op
+			for i := g.Range(2, 5); i > 0; i-- {
+				switch g.Intn(4) {
+				case 0, 1:
+					ops = append(ops, Op{K: "createDataset", DS: g.Pick(names)})
+				case 2:
+					ops = append(ops, Op{K: "deleteDataset", DS: g.Pick(names)})
+				default:
+					ops = append(ops, Op{K: "renameDataset", DS: names[0], DS2: names[1]})
+				}
+			}
+			sc.Tasks = append(sc.Tasks, ops)
+		}
+		for ti := range sc.Tasks {
+			if len(sc.Tasks[ti]) > 0 && isWrite(sc.Tasks[ti][0].K) && g.P(0.5) {
+				ents := []Ent{{"id": g.Pick([]string{MkE + "e0", MkE + "e1", MkE + "m" + fmt.Sprint(ti)}), "props": map[string]any{MkS + "w": fmt.Sprintf("mgr%d", ti)}, "refs": map[string]any{}}}
+				pos := g.Intn(len(sc.Tasks[ti]) + 1)
+				op := Op{K: "batch", DS: g.Pick(names), Ents: ents}
+				sc.Tasks[ti] = append(sc.Tasks[ti][:pos:pos], append([]Op{op}, sc.Tasks[ti][pos:]...)...)
+			}
+		}
+	case "C19":
+		sc.Property = "C19"
+		genC07(g, sc, tier)
+		sc.Faults, sc.Cuts = nil, nil
+		delete(sc.Knobs, "allPoints")
+		// settings on (re-)created datasets
+		for i := range sc.Ops {
+			if sc.Ops[i].K == "createDataset" {
+				switch g.Intn(4) {
+				case 0:
+					sc.Ops[i].M = map[string]any{"proxy": "http://remote.example.org/datasets/x"}
+				case 1:
+					sc.Ops[i].M = map[string]any{"virtual": "ZnVuY3Rpb24gYnVpbGRfZW50aXRpZXMoKSB7fQ=="}
+				case 2:
+					sc.Ops[i].M = map[string]any{"publicNamespaces": []any{ExE, ExS}}
+				}
+			}
+		}
 	case "C13":
 		sc.Property = "C13"
 		genC13(g, sc, tier)
@@ -313,9 +358,9 @@ func Execute(sc *Scenario) *Verdict {
 	switch sc.Profile {
 	case "C01", "C02", "C03", "C06", "C12":
 		return RunStoreScenario(sc)
-	case "C05", "C02c", "C12c", "C13c":
+	case "C05", "C02c", "C12c", "C13c", "C19c":
 		return RunConcScenario(sc)
-	case "C04", "C07", "C12x", "C13":
+	case "C04", "C07", "C12x", "C13", "C19":
 		return RunCrashScenario(sc)
 	}
 	return execOther(sc)
